@@ -190,6 +190,8 @@ bool VM::executeSingle() {
       this->data[target_off + ret_target] = this->data[source_off + ret_source];
       this->instruction_pointer = this->stack.back().ret_addr;
       this->stack.pop_back();
+      // release the frame of the finished activation
+      this->data.resize(source_off);
       break;
     }
   }
